@@ -251,7 +251,71 @@ func checkC09(P *Program, r *Result, tier string) {
 		}
 	}
 	// caller slice ⇒ bufReadOnly (constructor pairing) and reset call sites
-	if fn := P.Method(relBufiox, "DefaultReader", "reset"); r.require("bufiox.DefaultReader.reset", fn != nil) {
+	resetFn := P.Method(relBufiox, "DefaultReader", "reset")
+	if resetFn == nil {
+		// no reset routine: the constructors fill the fields themselves
+		n := 0
+		for _, fn := range pkgFuncs(P, relBufiox) {
+			for _, b := range fn.Blocks {
+				for _, in := range b.Instrs {
+					st, ok := in.(*ssa.Store)
+					if !ok {
+						continue
+					}
+					fad, ok := st.Addr.(*ssa.FieldAddr)
+					if !ok || canonFieldName(fad.X.Type(), fad.Field) != "buf" || !strings.HasSuffix(deref(fad.X.Type()).String(), "DefaultReader") {
+						continue
+					}
+					fromParam := false
+					for _, rt := range rootsOf(st.Val) {
+						if rt.Kind == "param" {
+							fromParam = true
+						}
+					}
+					if !fromParam {
+						continue
+					}
+					n++
+					// the ownership flag of the same object is set in the same block
+					okFlag := false
+					for _, in2 := range b.Instrs {
+						s2, ok := in2.(*ssa.Store)
+						if !ok {
+							continue
+						}
+						f2, ok := s2.Addr.(*ssa.FieldAddr)
+						if !ok || !sameObjAddr(f2.X, fad.X) || canonFieldName(f2.X.Type(), f2.Field) != "bufReadOnly" {
+							continue
+						}
+						if set, isC := flagConst(s2.Val); isC && set {
+							okFlag = true
+						}
+					}
+					r.add("OWNER-GUARD", shortName(fn), "store", "a caller-provided slice becomes the buffer only together with bufReadOnly = true", P.pos(instrPos(st)), okFlag, "")
+					// ... and such a reader is fed by the inert source only
+					inert := false
+					for _, b3 := range fn.Blocks {
+						for _, in3 := range b3.Instrs {
+							s3, ok := in3.(*ssa.Store)
+							if !ok {
+								continue
+							}
+							f3, ok := s3.Addr.(*ssa.FieldAddr)
+							if !ok || !sameObjAddr(f3.X, fad.X) || canonFieldName(f3.X.Type(), f3.Field) != "rd" {
+								continue
+							}
+							if mi, isMI := s3.Val.(*ssa.MakeInterface); isMI && P.helperTypeOf(relBufiox, "BytesReader", "fakedIOReader") != "" && strings.HasSuffix(mi.X.Type().String(), "."+P.helperTypeOf(relBufiox, "BytesReader", "fakedIOReader")) {
+								inert = true
+							}
+						}
+					}
+					r.add("OWNER-GUARD", shortName(fn), "call", "a reader over a caller's buffer is fed by the inert source only", P.pos(instrPos(st)), inert, "")
+				}
+			}
+		}
+		r.require("bufiox: a place where a caller's slice becomes the reader's buffer (reset, or a constructor)", n > 0)
+	}
+	if fn := resetFn; fn != nil {
 		n := 0
 		for _, b := range fn.Blocks {
 			for _, in := range b.Instrs {
@@ -633,4 +697,15 @@ func valueAtCall(callee *ssa.Function, args []ssa.Value, v ssa.Value) (val ssa.V
 		return stored, false, true
 	}
 	return nil, false, false
+}
+
+// sameObjAddr: two address values denote the same object: the same value, or the same field path from the same value
+// (go/ssa emits a new &x.f for every use).
+func sameObjAddr(a, b ssa.Value) bool {
+	if a == b {
+		return true
+	}
+	fa, ok1 := a.(*ssa.FieldAddr)
+	fb, ok2 := b.(*ssa.FieldAddr)
+	return ok1 && ok2 && fa.Field == fb.Field && sameObjAddr(fa.X, fb.X)
 }
